@@ -50,7 +50,17 @@ pub fn dispatch(args: &Args, report: &mut Report) {
                 scripts::run_reorder(args, report);
             }
         }
-        "C18" => latmon::run(args, report),
+        "C18" => {
+            if args.sub.is_none() || args.sub.as_deref() == Some("latency") {
+                latmon::run(args, report);
+            }
+            if args.sub.is_none() || args.sub.as_deref() == Some("batch_equiv") {
+                jobgen::run(args, report);
+            }
+            if args.sub.is_none() || args.sub.as_deref() == Some("batch_loops") {
+                termination::run_c18_loops(args, report);
+            }
+        }
         "C20" => faultmon::run(args, report),
         "C04" => termination::run(args, report),
         "C06" => scripts::run_c06(args, report),
